@@ -28,6 +28,7 @@ def bounds(tier):
     return {"dense": f"values 0..{8 if q else 9}, 1..{7 if q else 8} items, 1..5 bins",
             "planted": f"T=12, letters {LETTERS}, patterns with <=4 parts, k=3..{5 if q else 6} patterns",
             "planted-big": "T=12, every unordered pair of patterns (p, r) with multiplicities (a, b) in " + ("{(7,4),(12,12),(30,10)}" if q else "{(7,4),(12,12),(30,10),(9,40),(64,1)}") + ": k=a+b bins, up to 260 items",
+            "manybins": ("k=16,17 with every multiset of k+1..k+3 items over 1..4; k=32,33 over 1..3" if q else "k=15,17 (1..4), 16 (1..5), 31..33 (1..3), 64,65 (1..2), every multiset of k+1..k+3 items") + "; optimum replaced by sound stand-ins from the reference LPT partition",
             "lpt-tight": "k=2..8", "presentation": "every input is given in a fixed non-sorted order"}
 
 
@@ -48,6 +49,11 @@ def tasks(tier):
                 big.append(tuple(sorted(p * a + r * b, reverse=True)))
     for ch in spaces.chunked(big, 40):
         ts.append(("planted-big", ch, None))
+    # many bins, few items per bin: k = 16, 17 (values 1..4) and 32, 33 (values 1..3), every multiset of k+1..k+3 items.  The optimum
+    # is replaced by sound stand-ins from the reference LPT partition: OPTmax <= its largest sum, OPTmin >= its smallest sum
+    for k, V in ((16, 4), (17, 4), (32, 3), (33, 3)) if q else ((15, 4), (16, 5), (17, 4), (31, 3), (32, 3), (33, 3), (64, 2), (65, 2)):
+        for ch in scopes.chunk_multisets(range(1, V + 1), k + 1, k + 3, 150):
+            ts.append(("manybins", ch, (k,)))
     ts.append(("lpt-tight", [tuple(sorted([v for v in range(k + 1, 2 * k) for _ in (0, 1)] + [k, k, k], reverse=True)) for k in range(2, 9)], None))
     return ts
 
@@ -123,6 +129,11 @@ def run_task(task):
                             _judge(acc, ms, k, o["largest"], o["smallest"])
                         finally:
                             _FMT[0] = "list"
+        elif scope == "manybins":
+            k = ks[0]
+            ref = O.lpt_sums(ms, k)
+            g = _judge(acc, ms, k, max(ref), min(ref))
+            acc.point(nontrivial=(g is not None))
         elif scope == "planted":
             k = ks[0]
             g = _judge(acc, ms, k, T, T)
